@@ -141,6 +141,12 @@ class World:
                             '__mro__': TupleV([self.classes[x] for x in mros[name]] + [self.obj]),
                             '__bases__': TupleV([self.classes[x] for x in bases] or [self.obj])})
         self.mros = mros
+        # what the package itself registered at import time for the built-in types (code may consult pretty_dispatch.registry[int])
+        from engine import facts as _facts
+        from engine.interp import FuncV as _FuncV
+        for r_ in _facts.registry(repo):
+            if r_.fn is not None and r_.module is self.m and isinstance(r_.key, str) and r_.key in ('int', 'float', 'str', 'bytes', 'bool', 'list', 'tuple', 'set', 'frozenset', 'dict'):
+                self.live.set(TypeV(r_.key), _FuncV(r_.fn))
         self.base = self.it.global_name(self.m, _roles.name(repo, 'base_dispatch'))
         # every module-level mutable container of the module is registry state (restored between histories); the deferred store is
         # the dict the decorator writes string keys into - found by behaviour, not by name (see find_deferred)
